@@ -66,8 +66,11 @@ def main(modname, tier, replay, tag="gasan", tags=None):
     mod = importlib.import_module(modname)
     run = verdict.Run(mod.PROP, tier, mod.LEVEL, replay_of=replay)
     S = optrun.Summary()
-    if tags is None and tier == "thorough" and not replay:
-        tags = [tag, "casan"]    # the thorough tier repeats a share of the cases under clang ASan+UBSan
+    if tags is None and not replay:
+        # a share of the cases is repeated on an uninstrumented build: ASan's quarantine keeps freed addresses from
+        # being reused, and state that is keyed by an object's address only shows when they are; the thorough tier
+        # also repeats a share under clang ASan+UBSan
+        tags = [tag, "casan", "plain"] if tier == "thorough" else [tag, "plain"]
     tags = tags or [tag]
     for tg in tags:
         optrun.optdrv(tg)  # build once, before forking
@@ -107,4 +110,6 @@ def main(modname, tier, replay, tag="gasan", tags=None):
     if hasattr(mod, "finish") and not replay:
         extra = mod.finish(run, S, tier) or {}
     build.prune()
-    return run.finish(S.n, len(S.distinct), mod.RULE, **extra)
+    # a replay re-executes one recorded case: it counts as observed also when the check's own measure of
+    # "non-trivial" does not apply to that case
+    return run.finish(S.n, max(1, len(S.distinct)) if replay else len(S.distinct), mod.RULE, **extra)
